@@ -114,3 +114,87 @@ func VerifC19_Effective() {
 	verifrt.Assert(c.OCSPConfig.DefaultCacheDurationParsed == 0, "no OCSP caching by default")
 	verifrt.Assert(validateConfig(c) == nil, "valid configuration validates")
 }
+
+// VerifC19_Flags: the strictness flags and the OCSP cache duration - each absent or in one of its
+// documented spellings - combined with the CDP fetch mode absent or given: what ParseConfig yields is
+// exactly what was configured (an option never resets its neighbour), an explicit zero duration equals
+// the omitted one (no caching), an unparsable duration is rejected.
+func VerifC19_Flags() {
+	installMechanisms()
+	withCRL := verifrt.Choose(2) == 1
+	strictKind, aiaKind := 0, verifrt.Choose(3)
+	fm := ""
+	cdVals := []string{"", "0s", "0", "10m", "bogus", "0h0m0s"}
+	cdKind := verifrt.Choose(len(cdVals))
+	b := &cfBuilder{}
+	b.open("revocation")
+	if withCRL {
+		b.kv("mode", "prefer_ocsp")
+		strictKind = verifrt.Choose(3)
+		b.open("crl_config")
+		b.kv("work_dir", "/work")
+		fmKind := verifrt.Choose(3)
+		if fmKind > 0 || strictKind > 0 {
+			b.open("cdp_config")
+			order := verifrt.Choose(2) // the two cdp options in either order
+			for i := 0; i < 2; i++ {
+				if (i == 0) == (order == 0) {
+					if fmKind > 0 {
+						fm = []string{"", "fetch_actively", "fetch_background"}[fmKind]
+						b.kv("crl_fetch_mode", fm)
+					}
+				} else if strictKind > 0 {
+					b.kv("crl_cdp_strict", []string{"", "false", "true"}[strictKind])
+				}
+			}
+			b.close()
+		}
+		b.close()
+	} else {
+		b.kv("mode", "ocsp_only")
+	}
+	if cdKind > 0 || aiaKind > 0 {
+		b.open("ocsp_config")
+		if cdKind > 0 {
+			b.kv("default_cache_duration", cdVals[cdKind])
+		}
+		if aiaKind > 0 {
+			b.kv("ocsp_aia_strict", []string{"", "false", "true"}[aiaKind])
+		}
+		b.close()
+	}
+	b.close()
+	c := &CertRevocationValidator{}
+	uerr := c.UnmarshalCaddyfile(caddyfile.NewDispenser(b.toks))
+	verifrt.Assert(uerr == nil, "valid Caddyfile loads")
+	if uerr != nil {
+		return
+	}
+	perr := ParseConfig(c)
+	if cdKind == 4 {
+		verifrt.Reach("bad-duration")
+		verifrt.Assert(perr != nil, "an unparsable cache duration is rejected")
+		return
+	}
+	verifrt.Assert(perr == nil, "every documented spelling parses (an explicit zero cache duration is the documented default)")
+	if perr != nil {
+		return
+	}
+	verifrt.Reach("flags-parsed")
+	wantCD := time.Duration(0)
+	if cdKind == 3 {
+		wantCD = 10 * time.Minute
+	}
+	verifrt.Assert(c.OCSPConfig.DefaultCacheDurationParsed == wantCD, "default_cache_duration: configured value; explicit zero = omitted = no caching")
+	verifrt.Assert(c.OCSPConfig.OCSPAIAStrict == (aiaKind == 2), "ocsp_aia_strict is what was configured (default false)")
+	if withCRL {
+		cc := c.CRLConfig
+		verifrt.Assert(cc.CDPConfig != nil && cc.CDPConfig.CRLCDPStrict == (strictKind == 2), "crl_cdp_strict is what was configured (default false), whatever the other cdp options")
+		if fm == "fetch_background" {
+			verifrt.Assert(cc.CDPConfig.CRLFetchModeParsed == config.CRLFetchModeBackground, "background")
+		} else {
+			verifrt.Assert(cc.CDPConfig.CRLFetchModeParsed == config.CRLFetchModeActively, "active fetch is the default")
+		}
+	}
+	verifrt.Assert(validateConfig(c) == nil, "valid configuration validates")
+}
